@@ -69,7 +69,8 @@ ASSUMPTIONS = [
 ]
 TOLERANCES = {
     "sart x / convergence list": "1e-10 * scale; same arithmetic on both sides up to summation order. scale = largest |x| over all "
-                                 "iterates of the reference; for the convergence numbers 1 - |W x|^2/|b|^2 the scale is max(1, |conv|, "
+                                 "iterates of the reference and largest sum of absolute update terms w/W(+,l) * sum_k |W(k,l)/W(k,+) "
+                                 "(Phi_k - Phi_hat_k)| (terms of both signs may cancel exactly in one summation order only); for the convergence numbers 1 - |W x|^2/|b|^2 the scale is max(1, |conv|, "
                                  "sqrt(1+|conv|) * |W|_F * max|x| / |b|), the first-order propagation of a relative error in x. A case is compared only if two reference "
                                  "evaluations with different summation order (sequential loops vs. vectorised) agree to 1e-12 * "
                                  "scale and on the iteration count (measured conditioning, 100x margin); otherwise it is labelled "
@@ -240,7 +241,7 @@ def l_spec(draw, n, allow_none, dtypes=True):
         elif dtype in ("int64", "int32"):
             e = st.integers(-3, 3).map(float)
         else:
-            e = st.one_of(st.just(0.0), st.integers(-8, 8).map(lambda k: k / 8.0), st.floats(-1.0, 1.0))
+            e = st.one_of(st.just(0.0), st.integers(-8, 8).map(lambda k: k / 8.0), _signed(1.0))   # no subnormals
         spec["M"] = [[draw(e) for _ in range(n)] for _ in range(n)]
     return spec
 
@@ -441,14 +442,18 @@ def ref_sart(W, b, x0, max_it, relax, conv_tol, L, beta, vectorised):
             upd = np.dot(Wn.T, resid)
             pos = dens > 0
             new[pos] = x[pos] + relax * upd[pos] / dens[pos]
+            if np.any(pos):                    # size of the summed terms: governs the rounding error when they cancel
+                xscale = max(xscale, float(np.max(relax * np.dot(Wn.T, np.abs(resid))[pos] / dens[pos])))
         else:
             for l in range(n):
                 if dens[l] > 0:
-                    acc = 0.0
+                    acc = mag = 0.0
                     for i in range(m):
                         if live[i]:
                             acc += W[i, l] / ray[i] * resid[i]
+                            mag += W[i, l] / ray[i] * abs(resid[i])
                     new[l] = x[l] + relax / dens[l] * acc
+                    xscale = max(xscale, relax / dens[l] * mag)
         if L is not None:
             new = new - beta * np.dot(L, x)
         if np.any(new < 0):
